@@ -33,7 +33,12 @@
   The queue's own mutex is a leaf lock (no operation inside its critical sections), so queue operations —
   and the `with all_tasks_done:` block of `join(t)` up to its `wait` — are atomic steps.
   Time is abstracted: a time-out branch (`timeout := true`) may be taken at any moment (a superset of
-  "expiry at quiescence"), so every theorem holds for every timing.
+  "expiry at quiescence"), so every theorem holds for every timing — a zero time-out (`join(0)`, `result(0)`) is the
+  time-out branch taken at once.  The pool's own timed `queue.put` / `queue.get` have a time-out branch only when the
+  constructor was given a finite `timeout` (`cfg.timeoutNone = false`).
+  `__start_thread`: `Thread.start()` may raise (environment, `cfg.startMayFail`): the `except (RuntimeError, OSError)` arm
+  undoes `nb_threads += 1` and returns False — the failure branch of the `event.is_set` step changes nothing but the
+  caller's program counter.
   Counter decrements that would underflow and `task_done` on a zero count make the step undefined (`none`):
   the model declines, it never truncates silently.
 -/
@@ -106,6 +111,13 @@ structure Config where
   min : Nat
   qbound : Nat            -- 0 = unbounded
   singleCtl : Bool := true -- start/stop/clear are issued by client 0 only ("the controlling thread")
+  /-- Environment: `Thread.start()` may raise (RuntimeError "can't start new thread" / OSError).  `false` is the
+      explicit assumption "thread creation never fails" under which the growth / floor / liveness theorems are stated. -/
+  startMayFail : Bool := false
+  /-- The pool was constructed with `timeout=None` (the constructor does not validate it): the pool's own timed
+      `queue.put` / `queue.get` then block for ever — their time-out branches do not exist.  `false` = a finite time-out
+      (the default 60 s): the explicit assumption of the `stop()` termination theorems. -/
+  timeoutNone : Bool := false
   deriving DecidableEq, Repr
 
 structure State where
@@ -134,6 +146,9 @@ inductive Op where
 structure Action where
   who : Tid
   op : Op
+  /-- The environment's alternative branch of the operation: the time-out of a timed wait (`queue.put/get`,
+      `thread.join`, `cond.wait`, `fut.wait`) — or, on the `event.is_set` of `__start_thread`, "the flag is clear and
+      the `Thread.start()` that follows raises" (only when `cfg.startMayFail`). -/
   timeout : Bool := false
   deriving DecidableEq, Repr
 
@@ -205,7 +220,9 @@ def workerStep (s : State) (i : Nat) (w : Worker) (op : Op) (tmo : Bool) : Optio
         some (setWorker (updTask { s with queue := rest } t (fun x => { x with phase := .held, owner := some i }))
           i { w with pc := .actAcq, held := some t })
       else none
-  | .get, .queueGet, true => some (setWorker s i { w with pc := .retAcq })
+  | .get, .queueGet, true =>
+    -- `queue.Empty` after `self._timeout` seconds: exists only when the time-out is finite
+    if s.cfg.timeoutNone = false then some (setWorker s i { w with pc := .retAcq }) else none
   | .sentDone, .queueTaskDone, false =>
     if s.unfinished ≠ 0 then some (setWorker (tdone s) i { w with pc := .exitAcq }) else none
   | .actAcq, .lockAcquire, false =>
@@ -321,6 +338,10 @@ def clientStep (s : State) (i : Nat) (c : Client) (op : Op) (tmo : Bool) : Optio
     else none
   | .stIsSet k, .eventIsSet, false =>
     some (setClient (if s.stop then s else spawnWorker s) i { c with pc := .stRel k })
+  | .stIsSet k, .eventIsSet, true =>
+    -- environment: the flag is clear and `Thread.start()` raises — `nb_threads += 1` is undone by the `except` arm
+    -- (`nb_threads -= 1; return False`, fact `poolStartRollback`), the thread is not listed: nothing changes
+    if s.cfg.startMayFail = true ∧ s.stop = false then some (setClient s i { c with pc := .stRel k }) else none
   | .stRel k, .lockRelease, false =>
     if canRelease s me then
       some (setClient (rel s) i (if k ≤ 1 then { pc := .idle, ret := .unit } else { c with pc := .stAcq (k - 1) }))
@@ -333,13 +354,16 @@ def clientStep (s : State) (i : Nat) (c : Client) (op : Op) (tmo : Bool) : Optio
       some (setClient { updTask (put s (.task t)) t (fun x => { x with phase := .queued }) with nbPending := s.nbPending + 1 }
         i { c with pc := if s.nbPending + 1 > s.nbThreads then .enqStAcq else .enqRel })
     else none
-  | .enqPut _, .queuePut, true => some (setClient s i { c with pc := .enqRelFail })
+  | .enqPut _, .queuePut, true =>
+    if s.cfg.timeoutNone = false then some (setClient s i { c with pc := .enqRelFail }) else none
   | .enqStAcq, .lockAcquire, false =>
     if canAcquire s me then
       some (setClient (acq s me) i { c with pc := if s.nbThreads ≥ s.cfg.max then .enqStRel else .enqStIsSet })
     else none
   | .enqStIsSet, .eventIsSet, false =>
     some (setClient (if s.stop then s else spawnWorker s) i { c with pc := .enqStRel })
+  | .enqStIsSet, .eventIsSet, true =>
+    if s.cfg.startMayFail = true ∧ s.stop = false then some (setClient s i { c with pc := .enqStRel }) else none
   | .enqStRel, .lockRelease, false =>
     if canRelease s me then some (setClient (rel s) i { c with pc := .enqRel }) else none
   | .enqRel, .lockRelease, false =>
@@ -358,7 +382,8 @@ def clientStep (s : State) (i : Nat) (c : Client) (op : Op) (tmo : Bool) : Optio
     if !isFull s then
       some (setClient (put s .sentinel) i { c with pc := if n ≤ 1 then .stopRel s.threads else .stopPut (n - 1) })
     else none
-  | .stopPut _, .queuePut, true => some (setClient s i { c with pc := .stopRel s.threads })
+  | .stopPut _, .queuePut, true =>
+    if s.cfg.timeoutNone = false then some (setClient s i { c with pc := .stopRel s.threads }) else none
   | .stopRel [], .lockRelease, false =>
     if canRelease s me then some (setClient { rel s with threads := [] } i { c with pc := .clrAcq }) else none
   | .stopRel (w :: rest), .lockRelease, false =>
@@ -433,24 +458,30 @@ def run (s : State) : List Action → Option State
 inductive Arg where
   | int (i : Int)
   | float (trunc : Int)        -- a finite float, given by its truncation toward zero (what `int()` returns)
+  | floatInf (neg : Bool)      -- `float('inf')` / `float('-inf')` (also what the literal `1e400` is): `int()` raises OverflowError
+  | floatNan                   -- `float('nan')`: `int()` raises ValueError
   | str (parsed : Option Int)  -- a string, given by whether `int()` accepts it and with which value
   | none
   | other                      -- any object without `__int__`/`__index__`/`__trunc__` (list, dict, …)
   deriving DecidableEq, Repr
 
 inductive IntErr where
-  | typeError | valueError
+  | typeError | valueError | overflowError
   deriving DecidableEq, Repr
 
 def pyInt : Arg → Except IntErr Int
   | .int i => .ok i
   | .float t => .ok t
+  | .floatInf _ => .error .overflowError
+  | .floatNan => .error .valueError
   | .str (some i) => .ok i
   | .str none => .error .valueError
   | .none => .error .typeError
   | .other => .error .typeError
 
-/-- `ThreadPool(max_threads, min_threads, queue_size)`: `error` stands for `ValueError`. -/
+/-- `ThreadPool(max_threads, min_threads, queue_size)`: `error` stands for `ValueError`.  Every error of `int()`
+    (TypeError, ValueError, OverflowError — fact `poolCtorCatches`) is caught: turned into `ValueError` for the two sizes,
+    into "unbounded" for the queue size. -/
 def mkPool? (mx mn qs : Arg) : Except String Config :=
   match pyInt mx with
   | .error _ => .error "ValueError"
@@ -486,5 +517,19 @@ def joinShapeSpec : Bool × Bool × Bool × Bool := (true, true, true, true)
 def clearDecrementsTasksOnlySpec : Bool := true
 /-- `ThreadPool.__init__` defaults (min_threads, queue_size, timeout). -/
 def ctorDefaultsSpec : Nat × Nat × Nat := (1, 0, 60)
+/-- Each of the three `try` blocks around `int(...)` in `__init__` (max_threads, min_threads, queue_size)
+    catches TypeError, ValueError and OverflowError (sorted names, one list per block, in source order). -/
+def ctorCatchesSpec : List (List String) :=
+  [["OverflowError", "TypeError", "ValueError"], ["OverflowError", "TypeError", "ValueError"],
+   ["OverflowError", "TypeError", "ValueError"]]
+/-- The failure branch of `__start_thread` (`stIsSet` / `enqStIsSet` with the failure flag): `(increment, rollback,
+    listed)` — `nb_threads += 1` sits inside the `try` before `thread.start()`, the handler of `(RuntimeError, OSError)`
+    executes `nb_threads -= 1` and returns False, `_threads.append` comes after `start()` (a thread that failed to start
+    is not listed). -/
+def startRollbackSpec : Bool × Bool × Bool := (true, true, true)
+/-- `__run`: the `except Exception` handler around `future.execute` logs the failing task without reading an attribute
+    the task may lack (`getattr(method, "__name__", …)`, never `method.__name__`): the handler cannot raise, the worker
+    goes on to `task_done` and its accounting (`futSet → taskDone → finAcq`) whatever the task object is. -/
+def runHandlerSafeSpec : Bool := true
 
 end JRV.Pool
